@@ -70,6 +70,8 @@ def checkLine (oc : Bool) (line : String) : Option (List String × String) :=
     (FBV.DrvPL.check false pre impl).map fun (v, nt) => (v, if nt then "pl_nontrivial" else "pl_trivial")
   | [("APL" :: pre), impl] =>
     (FBV.DrvPL.check true pre impl).map fun (v, nt) => (v, if nt then "apl_nontrivial" else "apl_trivial")
+  | [("TV" :: pre), op, out, post] =>
+    (FBV.DrvT1.checkTV oc pre op out post).map fun (v, nt) => (v, if nt then "tv_nontrivial" else "tv_trivial")
   | [("T0" :: pre), post] => (FBV.DrvT1.checkT0 pre post).map fun v => (v, "t0")
   | _ => none
 
